@@ -65,6 +65,9 @@ func (rn *runner) modelledReqX(epName, api, user, plan, hUser, hPlan, method, ci
 	hline := "h " + epName + " plan=" + itoa(pn[0]) + "," + itoa(pn[1]) + "," + itoa(pn[2]) + " ncols=" + itoa(len(rn.w.cols[user])) + " exists=" + itoa(exists) +
 		" cid=" + itoa(len(cid)) + " found=" + itoa(found) + " count=" + itoa(int(count)) + hdrArgs(hUser, hPlan) + " ; " + schemaT + " ; " + tokens
 	st := rn.judge(req, epName, ctype, tag, "", key, hline)
+	if strings.HasSuffix(epName, "Search") {
+		rn.checkReach(epName, ctype, raw, ci, st, key, req, hline)
+	}
 	if undo && st >= 200 && st < 300 && method != "GET" && !strings.HasSuffix(suffix, "/search") {
 		// undo: the sweep must not drift the state
 		switch {
@@ -265,6 +268,8 @@ func (rn *runner) boundarySweep() {
 			rn.sweepReq("v1Search", "v1", "alice", "BASIC", "POST", "v1col", "/points/search", Obj("vector", g.vec(l), "limit", Int(5)), mp, "v1search.vector.len")
 		}
 	}
+	rn.placeSweep()
+	rn.straySweep()
 	// ---- query vectors of 4096 / 4097 on the 4096-dimensional indexes; stored vectors of 4095 / 4096 / 4097
 	for _, l := range []int{4095, 4096, 4097} {
 		q := Obj("query", Obj("property", Str("v"), "vectorFlat", Obj("vector", g.vec(l), "operator", Str("near"), "limit", Int(3))), "limit", Int(3))
@@ -316,5 +321,183 @@ func (rn *runner) boundarySweep() {
 		rn.w.c.do(request{"carol", "BIG", "DELETE", "/v2/collections/" + id, "", nil})
 		delete(rn.w.hist, "carol/"+id)
 		rn.refresh()
+	}
+}
+
+// placeSweep: every schema check of a query leaf (vector length against the index dimension, options of the
+// index's type present, property indexed) at every place a leaf can stand — top level, inside `_and` / `_or`,
+// as the filter of a flat / vamana / text leaf, three levels down — and beside every optional sibling: a valid
+// filter on the leaf itself, a dormant `_and` list on an `_or` node and vice versa (before and after the live
+// list). The well-formed leaf goes through the same places (nothing may be refused because of where it stands),
+// and the broken leaf through the dormant places (nothing may be refused because of what is not executed).
+func (rn *runner) placeSweep() {
+	g := rn.g
+	if rn.specs["alice/base1"] == nil {
+		return
+	}
+	good := func() *N {
+		return Obj("property", Str("size"), "integer", Obj("value", Int(5), "operator", Str("greaterThan")))
+	}
+	flatLeaf := func(l int, filter *N) *N {
+		o := Obj("vector", g.vec(l), "operator", Str("near"), "limit", Int(10))
+		if filter != nil {
+			o.Set("filter", filter)
+		}
+		return Obj("property", Str("flat"), "vectorFlat", o)
+	}
+	vamLeaf := func(l int, filter *N) *N {
+		o := Obj("vector", g.vec(l), "operator", Str("near"), "searchSize", Int(75), "limit", Int(10))
+		if filter != nil {
+			o.Set("filter", filter)
+		}
+		return Obj("property", Str("vec"), "vectorVamana", o)
+	}
+	textLeaf := func(filter *N) *N {
+		o := Obj("value", Str("alpha beta"), "operator", Str("containsAny"), "limit", Int(10))
+		if filter != nil {
+			o.Set("filter", filter)
+		}
+		return Obj("property", Str("txt"), "text", o)
+	}
+	type named struct {
+		name string
+		mk   func() *N
+	}
+	leaves := []named{
+		{"ok.flat+filter", func() *N { return flatLeaf(3, good()) }},
+		{"ok.vamana+filter", func() *N { return vamLeaf(4, good()) }},
+		{"flat.len", func() *N { return flatLeaf(4, nil) }},
+		{"flat.len+filter", func() *N { return flatLeaf(2, good()) }},
+		{"vamana.len", func() *N { return vamLeaf(5, nil) }},
+		{"vamana.len+filter", func() *N { return vamLeaf(3, good()) }},
+		{"unindexed", func() *N {
+			return Obj("property", Str("note"), "string", Obj("value", Str("x"), "operator", Str("equals")))
+		}},
+		{"options-of-other-type", func() *N {
+			return Obj("property", Str("size"), "string", Obj("value", Str("x"), "operator", Str("equals")))
+		}},
+		{"text.no-options+filter", func() *N {
+			return Obj("property", Str("txt"), "vectorFlat", Obj("vector", g.vec(3), "operator", Str("near"), "limit", Int(10), "filter", good()))
+		}},
+		// limits of the leaf's own options (Query.Validate looks at every block and both lists, executed or not)
+		{"text.limit=76", func() *N {
+			return Obj("property", Str("txt"), "text", Obj("value", Str("alpha"), "operator", Str("containsAny"), "limit", Int(76)))
+		}},
+		{"vamana.searchSize<limit+filter", func() *N {
+			return Obj("property", Str("vec"), "vectorVamana", Obj("vector", g.vec(4), "operator", Str("near"), "searchSize", Int(30), "limit", Int(31), "filter", good()))
+		}},
+		{"integer.operator", func() *N {
+			return Obj("property", Str("size"), "integer", Obj("value", Int(5), "operator", Str("startsWith")))
+		}},
+	}
+	places := []named{
+		{"top", nil},
+		{"and", nil}, {"or", nil},
+		{"or+dormant-and", nil}, {"dormant-and+or", nil}, {"and+dormant-or", nil},
+		{"flat-filter", nil}, {"vamana-filter", nil}, {"text-filter", nil},
+		{"deep", nil},
+		{"in-dormant-and", nil}, {"in-dormant-block", nil},
+	}
+	place := func(name string, x *N) *N {
+		switch name {
+		case "and":
+			return Obj("property", Str("_and"), "_and", Arr(good(), x))
+		case "or":
+			return Obj("property", Str("_or"), "_or", Arr(x, good()))
+		case "or+dormant-and":
+			return Obj("property", Str("_or"), "_or", Arr(x), "_and", Arr(good()))
+		case "dormant-and+or":
+			return Obj("_and", Arr(good(), good()), "property", Str("_or"), "_or", Arr(good(), x))
+		case "and+dormant-or":
+			return Obj("property", Str("_and"), "_or", Arr(good()), "_and", Arr(x))
+		case "flat-filter":
+			return flatLeaf(3, x)
+		case "vamana-filter":
+			return vamLeaf(4, x)
+		case "text-filter":
+			return textLeaf(x)
+		case "deep":
+			return Obj("property", Str("_and"), "_and", Arr(good(), Obj("property", Str("_or"), "_or", Arr(flatLeaf(3, Obj("property", Str("_and"), "_and", Arr(x, good())))))))
+		case "in-dormant-and": // not executed: must not decide
+			return Obj("property", Str("_or"), "_or", Arr(good()), "_and", Arr(x))
+		case "in-dormant-block": // a leaf on "size" that also carries x's option blocks (not the ones its index takes)
+			q := good()
+			for _, kv := range x.O {
+				if kv.K != "property" && q.Get(kv.K) == nil {
+					q.O = append(q.O, kv)
+				}
+			}
+			return q
+		}
+		return x
+	}
+	k := 0
+	for _, pl := range places {
+		for _, lf := range leaves {
+			k++
+			b := Obj("query", place(pl.name, lf.mk()), "limit", Int(10))
+			rn.sweepReq("v2Search", "v2", "alice", "BASIC", "POST", "base1", "/points/search", b, k%3 == 0, "place."+pl.name+"."+lf.name)
+		}
+	}
+	// every nesting inside every nesting (a composite as the filter of a leaf, a filtered leaf inside a composite, a
+	// filter inside a filter ...): the five nestings pairwise, with the key violations and one well-formed leaf
+	nest := []string{"and", "or", "flat-filter", "vamana-filter", "text-filter"}
+	key := []named{leaves[0], leaves[3], leaves[4], leaves[6], leaves[7]}
+	for _, outer := range nest {
+		for _, inner := range nest {
+			for _, lf := range key {
+				k++
+				b := Obj("query", place(outer, place(inner, lf.mk())), "limit", Int(10))
+				rn.sweepReq("v2Search", "v2", "alice", "BASIC", "POST", "base1", "/points/search", b, k%3 == 0, "place."+outer+"."+inner+"."+lf.name)
+			}
+		}
+	}
+}
+
+// straySweep: the collection whose schema entries carry parameter blocks of other types than the declared one,
+// through both API versions: what decides is the declared type (and its block), never "which block is there"
+func (rn *runner) straySweep() {
+	g := rn.g
+	if rn.specs["alice/stray"] == nil {
+		return
+	}
+	for _, mp := range []bool{false, true} {
+		// v1: "vector" is a flat index there (with a vamana block of dimension 3 beside it): not a v1 collection
+		rn.sweepReq("v1Get", "v1", "alice", "BASIC", "GET", "stray", "", nil, false, "stray.v1get")
+		for _, l := range []int{2, 3, 4} {
+			rn.sweepReq("v1Search", "v1", "alice", "BASIC", "POST", "stray", "/points/search", Obj("vector", g.vec(l), "limit", Int(5)), mp, "stray.v1search")
+		}
+		rn.sweepReq("v1Insert", "v1", "alice", "BASIC", "POST", "stray", "/points", Obj("points", Arr(Obj("id", Str(g.uuid()), "vector", g.vec(3)))), mp, "stray.v1insert")
+		rn.sweepReq("v1Update", "v1", "alice", "BASIC", "PUT", "stray", "/points", Obj("points", Arr(Obj("id", Str(g.uuid()), "vector", g.vec(3)))), mp, "stray.v1update")
+		rn.sweepReq("v1Delete", "v1", "alice", "BASIC", "DELETE", "stray", "/points", Obj("ids", Arr(Str(g.uuid()))), mp, "stray.v1delete")
+		// v2 searches: the query options and the dimension that count are those of the declared type
+		s2 := func(q *N, tag string) {
+			rn.sweepReq("v2Search", "v2", "alice", "BASIC", "POST", "stray", "/points/search", Obj("query", q, "limit", Int(5)), mp, "stray."+tag)
+		}
+		for _, l := range []int{2, 3, 4} {
+			s2(Obj("property", Str("vector"), "vectorFlat", Obj("vector", g.vec(l), "operator", Str("near"), "limit", Int(5))), "flat.q.len")
+			s2(Obj("property", Str("vector"), "vectorVamana", Obj("vector", g.vec(l), "operator", Str("near"), "searchSize", Int(75), "limit", Int(5))), "flat.q.vamana-options")
+		}
+		for _, l := range []int{2, 5} {
+			s2(Obj("property", Str("w"), "vectorVamana", Obj("vector", g.vec(l), "operator", Str("near"), "searchSize", Int(75), "limit", Int(5))), "vamana.q.len")
+			s2(Obj("property", Str("w"), "vectorFlat", Obj("vector", g.vec(l), "operator", Str("near"), "limit", Int(5))), "vamana.q.flat-options")
+		}
+		s2(Obj("property", Str("metadata"), "string", Obj("value", Str("x"), "operator", Str("equals"))), "string.q")
+		s2(Obj("property", Str("metadata"), "vectorFlat", Obj("vector", g.vec(2), "operator", Str("near"), "limit", Int(5))), "string.q.flat-options")
+		s2(Obj("property", Str("n"), "vectorVamana", Obj("vector", g.vec(4), "operator", Str("near"), "searchSize", Int(75), "limit", Int(5))), "integer.q.vamana-options")
+		s2(Obj("property", Str("t"), "text", Obj("value", Str("alpha"), "operator", Str("containsAny"), "limit", Int(5))), "text.q")
+		// v2 writes: the stored value must fit the declared type
+		ins := func(pt *N, tag string) {
+			pt.Set("_id", Str(g.uuid()))
+			rn.sweepReq("v2Insert", "v2", "alice", "BASIC", "POST", "stray", "/points", Obj("points", Arr(pt)), mp, "stray."+tag)
+		}
+		for _, l := range []int{2, 3, 5} {
+			ins(Obj("vector", g.vec(l)), "stored.flat.len")
+			ins(Obj("w", g.vec(l)), "stored.vamana.len")
+		}
+		ins(Obj("metadata", Str("abc"), "n", Int(3), "t", Str("alpha beta")), "stored.plain")
+		ins(Obj("metadata", g.vec(2)), "stored.string.vector")
+		ins(Obj("n", g.vec(4)), "stored.integer.vector")
+		ins(Obj("t", g.vec(1)), "stored.text.vector")
 	}
 }
